@@ -678,6 +678,22 @@ func (e *Env) RResolverFile() {
 					if l, ok := as.Lhs[0].(*ast.SelectorExpr); ok && l.Sel.Name == listField && listField != "" {
 						filled = true
 					}
+					// … or into a local slice that is stored in the field afterwards
+					if lid, ok := as.Lhs[0].(*ast.Ident); ok && len(as.Rhs) == 1 {
+						if cl, ok := as.Rhs[0].(*ast.CallExpr); ok && types.ExprString(cl.Fun) == "append" && len(cl.Args) >= 1 && types.ExprString(cl.Args[0]) == lid.Name {
+							lo := info.Uses[lid]
+							ast.Inspect(sb, func(k ast.Node) bool {
+								if st, ok := k.(*ast.AssignStmt); ok && len(st.Lhs) == 1 && len(st.Rhs) == 1 && st.Pos() > rs.End() {
+									if l, ok := st.Lhs[0].(*ast.SelectorExpr); ok && l.Sel.Name == listField && listField != "" {
+										if rid, ok := ast.Unparen(st.Rhs[0]).(*ast.Ident); ok && info.Uses[rid] == lo {
+											filled = true
+										}
+									}
+								}
+								return true
+							})
+						}
+					}
 				}
 				return true
 			})
